@@ -9,7 +9,8 @@ From Coq Require Import Floats.SpecFloat Floats.PrimFloat Floats.FloatAxioms Flo
 From Flocq Require Import Core.Core IEEE754.BinarySingleNaN IEEE754.PrimFloat.
 Import ListNotations.
 From ByC Require Import Base.Result Base.ListAux Base.FloatBase Base.FloatFacts
-  Model.Cycles Model.Window Model.Plots.
+  Model.Cycles Model.Window Model.Plots Proofs.Window.
+From Coq Require Import Permutation.
 Local Open Scope nat_scope.
 
 (* ------------------------------------------------------------------------------------------ *)
@@ -492,6 +493,197 @@ Qed.
 
 (* ------------------------------------------------------------------------------------------ *)
 (** * M6: non-vacuity (all by computation) *)
+
+(* ------------------------------------------------------------------------------------------ *)
+(** * M6: the window selection of the summary (limit_df as repaired: time stamps sample / fs against the limits) and
+    what it means for the highlight and the panels when the x-limits are time stamps of the plotted time axis *)
+Theorem view_rows_none {V} (rows : list (srow * V)) : view_rows None rows = rows.
+Proof. reflexivity. Qed.
+
+Theorem view_rows_In {V} fs a b (rows : list (srow * V)) rv :
+  In rv (view_rows (Some (fs, a, b)) rows) <-> In rv rows /\ keep_row fs (Some a) (Some b) rv = true.
+Proof. unfold view_rows. apply filter_In. Qed.
+
+Theorem view_rows_incl {V} lim (rows : list (srow * V)) rv : In rv (view_rows lim rows) -> In rv rows.
+Proof.
+  destruct lim as [[[fs a] b]|]; [|intros H; exact H].
+  intros H. apply view_rows_In in H. exact (proj1 H).
+Qed.
+
+(** x-limits = the time stamps of samples k0 and k1 of the plotted time axis (arange(n) / fs): a cycle spanning
+    samples k0 <= last <= next <= k1 is in the window-limited table, whatever (k / fs) * fs rounds to *)
+Theorem view_rows_keep_on_grid {V} fs (k0 k1 : Z) (rows : list (srow * V)) rv :
+  finite fs = true -> (0 < FR fs)%R -> (Z.abs k0 < 2 ^ 53)%Z -> (Z.abs k1 < 2 ^ 53)%Z ->
+  finite (FloatBase.Z2F k0 / fs)%float = true -> finite (FloatBase.Z2F k1 / fs)%float = true ->
+  In rv rows -> (k0 <= s_last (fst rv))%Z -> (s_last (fst rv) <= s_next (fst rv))%Z -> (s_next (fst rv) <= k1)%Z ->
+  In rv (view_rows (Some (fs, (FloatBase.Z2F k0 / fs)%float, (FloatBase.Z2F k1 / fs)%float)) rows).
+Proof.
+  intros Ffs Hfs Hk0 Hk1 F0 F1 Hin H0 Hln H1. apply view_rows_In. split; [exact Hin|].
+  apply on_grid_limits; assumption.
+Qed.
+
+(** the highlight of the summary under such x-limits: the view shows samples k0 .. k0 + n - 1 (start <= t < stop with
+    stop the stamp of sample k0 + n); every sample of every labelled cycle of the TABLE lying entirely inside the view
+    is highlighted — in particular a cycle that starts exactly on the first sample of the view *)
+Theorem summary_highlight_complete_on_grid fs (k0 : Z) n (rows : list (srow * bool)) r j :
+  finite fs = true -> (0 < FR fs)%R -> (Z.abs k0 < 2 ^ 53)%Z -> (Z.abs (k0 + Z.of_nat n) < 2 ^ 53)%Z ->
+  finite (FloatBase.Z2F k0 / fs)%float = true -> finite (FloatBase.Z2F (k0 + Z.of_nat n) / fs)%float = true ->
+  In (r, true) rows -> (k0 <= s_last r)%Z -> (s_last r <= s_next r)%Z -> (s_next r <= k0 + Z.of_nat n - 1)%Z ->
+  (s_last r <= j <= s_next r)%Z ->
+  nth (Z.to_nat (j - k0))
+      (burst_mask n k0 (view_rows (Some (fs, (FloatBase.Z2F k0 / fs)%float, (FloatBase.Z2F (k0 + Z.of_nat n) / fs)%float)) rows))
+      false = true.
+Proof.
+  intros Ffs Hfs Hk0 Hk1 F0 F1 Hin H0 Hln H1 Hj.
+  apply (burst_mask_complete k0 n _ r j); try assumption.
+  apply (view_rows_keep_on_grid fs k0 (k0 + Z.of_nat n) rows (r, true)); try assumption; cbn [fst]; try assumption. lia.
+Qed.
+
+(** ... and only samples of labelled cycles of the table, for any x-limits *)
+Theorem summary_highlight_sound lim s0 n (rows : list (srow * bool)) i :
+  nth i (burst_mask n s0 (view_rows lim rows)) false = true ->
+  exists r, In (r, true) rows /\ (s_last r <= s0 + Z.of_nat i <= s_next r)%Z.
+Proof.
+  intros H. apply burst_mask_sound in H. destruct H as (r & Hin & Hr).
+  exists r. split; [exact (view_rows_incl lim rows _ Hin)|exact Hr].
+Qed.
+
+(** the panels under such x-limits: a point for every cycle of the table lying entirely inside the view *)
+Theorem summary_panel_complete_on_grid {V} fs (k0 : Z) n (rows : list (srow * V)) r v :
+  finite fs = true -> (0 < FR fs)%R -> (Z.abs k0 < 2 ^ 53)%Z -> (Z.abs (k0 + Z.of_nat n) < 2 ^ 53)%Z ->
+  finite (FloatBase.Z2F k0 / fs)%float = true -> finite (FloatBase.Z2F (k0 + Z.of_nat n) / fs)%float = true ->
+  In (r, v) rows -> (k0 <= s_last r)%Z -> (s_last r <= s_next r)%Z -> (s_next r <= k0 + Z.of_nat n - 1)%Z ->
+  In ((s_center r - k0)%Z, v)
+     (panel_interp n k0 (view_rows (Some (fs, (FloatBase.Z2F k0 / fs)%float, (FloatBase.Z2F (k0 + Z.of_nat n) / fs)%float)) rows)).
+Proof.
+  intros Ffs Hfs Hk0 Hk1 F0 F1 Hin H0 Hln H1.
+  apply panel_interp_complete; try assumption.
+  apply (view_rows_keep_on_grid fs k0 (k0 + Z.of_nat n) rows (r, v)); try assumption; cbn [fst]; try assumption. lia.
+Qed.
+
+Theorem summary_panel_sound {V} lim s0 n (rows : list (srow * V)) q v :
+  In (q, v) (panel_interp n s0 (view_rows lim rows)) ->
+  exists r, In (r, v) rows /\ q = (s_center r - s0)%Z /\ (s0 <= s_last r)%Z /\ (s_next r <= s0 + Z.of_nat n - 1)%Z.
+Proof.
+  intros H. apply panel_interp_sound in H. destruct H as (r & Hin & Hq & Hlo & Hhi).
+  exists r. split; [exact (view_rows_incl lim rows _ Hin)|]. split; [exact Hq|]. split; assumption.
+Qed.
+
+(** F16 seen from the plot: view = samples 7 .. 17 at fs = 100 (x-limits = the stamps of samples 7 and 18), labelled
+    cycles [7, 10] and [10, 13], unlabelled [13, 16].  The pre-repair selection loses the cycle that starts on the first
+    sample of the view (100 * fl(7 / 100) > 7): samples 7 .. 9 were not highlighted and the cycle had no panel point *)
+Definition f16_rows : list (srow * bool) :=
+  [(Build_srow 8 7 10 0 0 0, true); (Build_srow 12 10 13 0 0 0, true); (Build_srow 15 13 16 0 0 0, false)].
+Definition f16_lim : option (PrimFloat.float * PrimFloat.float * PrimFloat.float) :=
+  Some (100, FloatBase.Z2F 7 / 100, FloatBase.Z2F 18 / 100)%float.
+Theorem view_rows_legacy_refuted :
+  burst_mask 11 7 (view_rows_legacy f16_lim f16_rows)
+    = [false; false; false; true; true; true; true; false; false; false; false] /\
+  burst_mask 11 7 (view_rows f16_lim f16_rows)
+    = [true; true; true; true; true; true; true; false; false; false; false] /\
+  map fst (panel_interp 11 7 (view_rows_legacy f16_lim f16_rows)) = [5; 8]%Z /\
+  map fst (panel_interp 11 7 (view_rows f16_lim f16_rows)) = [1; 5; 8]%Z.
+Proof. vm_compute. repeat split; reflexivity. Qed.
+
+(* ------------------------------------------------------------------------------------------ *)
+(** * M7: threshold lines are looked up by the parameter's name, not by its position in the dictionary *)
+From Coq Require Strings.String.
+Import Strings.String.StringSyntax.
+Local Open Scope string_scope.
+
+Lemma threshold_of_In (given : list (String.string * PrimFloat.float)) k v :
+  NoDup (map fst given) -> In (k, v) given -> threshold_of given k = Some v.
+Proof.
+  unfold threshold_of. induction given as [|[k' v'] t IH]; intros Hnd Hin; [destruct Hin|].
+  cbn [find fst]. destruct (String.eqb k' k) eqn:He.
+  - apply String.eqb_eq in He. subst k'. cbn [option_map snd].
+    destruct Hin as [Heq|Hin]; [injection Heq as Hv; subst v'; reflexivity|].
+    exfalso. cbn [map fst] in Hnd. inversion Hnd as [|x l Hnot Hnd']. subst.
+    apply Hnot. apply in_map_iff. exists (k, v). split; [reflexivity|exact Hin].
+  - destruct Hin as [Heq|Hin].
+    + injection Heq as Hk Hv. subst k'. rewrite String.eqb_refl in He. discriminate He.
+    + apply IH; [|exact Hin]. cbn [map fst] in Hnd. inversion Hnd. assumption.
+Qed.
+
+Lemma threshold_of_Some (given : list (String.string * PrimFloat.float)) k v :
+  threshold_of given k = Some v -> In (k, v) given.
+Proof.
+  unfold threshold_of. destruct (find (fun kv => String.eqb (fst kv) k) given) as [[k' v']|] eqn:Hf; [|discriminate].
+  cbn [option_map snd]. intros H. injection H as H. subst v'.
+  apply find_some in Hf. destruct Hf as [Hin He]. cbn [fst] in He. apply String.eqb_eq in He. subst k'. exact Hin.
+Qed.
+
+Lemma panel_keys_In (given : list (String.string * PrimFloat.float)) k :
+  In k (panel_keys given) <-> In k (map fst given) /\ k <> "min_n_cycles".
+Proof.
+  unfold panel_keys. rewrite filter_In. split; intros [H1 H2]; (split; [exact H1|]).
+  - intros He. subst k. rewrite String.eqb_refl in H2. discriminate H2.
+  - destruct (String.eqb k "min_n_cycles") eqn:He; [|reflexivity].
+    apply String.eqb_eq in He. contradiction.
+Qed.
+
+(** every given parameter has its panel, with the threshold line at the value given for THAT parameter *)
+Theorem summary_panels_complete (given : list (String.string * PrimFloat.float)) k v :
+  NoDup (map fst given) -> In (k, v) given -> k <> "min_n_cycles" -> In (k, Some v) (summary_panels given).
+Proof.
+  intros Hnd Hin Hk. unfold summary_panels. apply in_map_iff. exists k. split.
+  - rewrite (threshold_of_In given k v Hnd Hin). reflexivity.
+  - apply panel_keys_In. split; [|exact Hk]. apply in_map_iff. exists (k, v). split; [reflexivity|exact Hin].
+Qed.
+
+(** and there is no other panel: each one belongs to a given parameter other than min_n_cycles and carries that
+    parameter's value *)
+Theorem summary_panels_sound (given : list (String.string * PrimFloat.float)) k t :
+  In (k, t) (summary_panels given) -> k <> "min_n_cycles" /\ exists v, t = Some v /\ In (k, v) given.
+Proof.
+  unfold summary_panels. intros H. apply in_map_iff in H. destruct H as (k' & Heq & Hin).
+  injection Heq as Hk Ht. subst k'. apply panel_keys_In in Hin. destruct Hin as [Hin Hne]. split; [exact Hne|].
+  apply in_map_iff in Hin. destruct Hin as ([k2 v2] & Hk2 & Hin2). cbn [fst] in Hk2. subst k2.
+  destruct (threshold_of given k) as [v|] eqn:Ht'.
+  - exists v. split; [symmetry; exact Ht|]. apply threshold_of_Some. exact Ht'.
+  - exfalso. unfold threshold_of in Ht'.
+    destruct (find (fun kv => String.eqb (fst kv) k) given) as [x|] eqn:Hf; [discriminate Ht'|].
+    apply (find_none _ _ Hf) in Hin2. cbn [fst] in Hin2. rewrite String.eqb_refl in Hin2. discriminate Hin2.
+Qed.
+
+(** the order in which the dictionary was filled (min_n_cycles first, in the middle, last, keys shuffled) changes
+    neither which panels there are nor any threshold line *)
+Theorem summary_panels_order_free (given given' : list (String.string * PrimFloat.float)) k t :
+  NoDup (map fst given) -> Permutation given given' ->
+  (In (k, t) (summary_panels given) <-> In (k, t) (summary_panels given')).
+Proof.
+  intros Hnd Hp.
+  assert (Hnd' : NoDup (map fst given')).
+  { apply (Permutation_NoDup (l := map fst given)); [apply Permutation_map; exact Hp|exact Hnd]. }
+  split; intros H; apply summary_panels_sound in H; destruct H as (Hne & v & Ht & Hin); subst t.
+  - apply summary_panels_complete; [exact Hnd'| |exact Hne]. apply (Permutation_in _ Hp). exact Hin.
+  - apply summary_panels_complete; [exact Hnd| |exact Hne]. apply (Permutation_in _ (Permutation_sym Hp)). exact Hin.
+Qed.
+
+(** the object's renaming of shorthand keys is such a re-ordering *)
+Lemma object_thresholds_perm (user : list (String.string * bool * PrimFloat.float)) :
+  Permutation (function_thresholds user) (object_thresholds user).
+Proof.
+  unfold function_thresholds, object_thresholds. apply Permutation_map.
+  induction user as [|[[k s] v] t IH]; [constructor|].
+  cbn [filter fst snd]. destruct s; cbn [negb].
+  - apply Permutation_cons_app. exact IH.
+  - cbn [app]. constructor. exact IH.
+Qed.
+
+Theorem object_panels_by_name (user : list (String.string * bool * PrimFloat.float)) k t :
+  NoDup (map fst (function_thresholds user)) ->
+  (In (k, t) (summary_panels (object_thresholds user)) <-> In (k, t) (summary_panels (function_thresholds user))).
+Proof.
+  intros Hnd. symmetry. apply summary_panels_order_free; [exact Hnd|apply object_thresholds_perm].
+Qed.
+
+(** a dictionary with min_n_cycles first (what Bycycle(thresholds = {shorthand ..., min_n_cycles}) hands to the plot) *)
+Example ex_summary_panels :
+  summary_panels [("min_n_cycles", 2); ("monotonicity_threshold", 0x1.3333333333333p-1); ("amp_fraction_threshold", 0x1.999999999999ap-3)]%float
+  = [("monotonicity_threshold", Some 0x1.3333333333333p-1); ("amp_fraction_threshold", Some 0x1.999999999999ap-3)]%float.
+Proof. vm_compute. reflexivity. Qed.
+Local Close Scope string_scope.
 
 Module Examples.
 (* view = samples 100 .. 149 (n = 50); peaks at 90 100 120 148 149 160: drawn are 100, 120, 148
